@@ -311,6 +311,63 @@ def render_stmt(w, s, cx, ind):
         raise ValueError(f"unknown stmt {t}")
 
 
+NATIVE_KINDS = ("compiled", "executor", "lambda")
+LAMBDA_PS_NAME = "__lambda_defn_temp__"
+
+
+def render_native(w, u, cx):
+    """a natively compiled script function: @pyscript_compile / @pyscript_executor def, or a file-level lambda"""
+    if u["kind"] == "lambda":
+        u["defln"] = w.ln
+        w.w(f"{u['name']} = lambda *a, **k: ")
+        body = [b for b in u["body"] if b["t"] == "s"]
+        if body:
+            body[0]["ln"] = w.ln
+            render_expr(w, body[0]["e"], cx, 0)
+        else:
+            w.w("1")
+        w.nl()
+        return
+    w.line("@pyscript_compile" if u["kind"] == "compiled" else "@pyscript_executor")
+    u["defln"] = w.ln
+    w.line(f"def {u['name']}(*a, **k):")
+    render_body(w, u["body"], cx, 4)
+
+
+def fault_line(stmt):
+    """line CPython reports for the (single) faulting node inside an abstract statement that was rendered"""
+    def find(x):
+        if isinstance(x, dict):
+            if x.get("t") == "f":
+                return x.get("ln")
+            for v in x.values():
+                r = find(v)
+                if r is not None:
+                    return r
+        elif isinstance(x, list):
+            for v in x:
+                r = find(v)
+                if r is not None:
+                    return r
+        return None
+    def find_raise(x):
+        if isinstance(x, dict):
+            if x.get("t") in ("raise", "assertfail"):
+                return x.get("ln")
+            for v in x.values():
+                r = find_raise(v)
+                if r is not None:
+                    return r
+        elif isinstance(x, list):
+            for v in x:
+                r = find_raise(v)
+                if r is not None:
+                    return r
+        return None
+    r = find(stmt)
+    return r if r is not None else find_raise(stmt)
+
+
 def slots_of(body, prefix=()):
     """all insertion positions in a statement list (nested lists included), as paths"""
     out = []
@@ -336,9 +393,11 @@ def materialize(case):
     if f:
         u = units[f["unit"]]
         slots = slots_of(u["body"])
-        insert_at(u["body"], slots[f["slot"] % len(slots)], copy.deepcopy(f["stmt"]))
+        st = copy.deepcopy(f["stmt"])
+        st["is_fault"] = True
+        insert_at(u["body"], slots[f["slot"] % len(slots)], st)
     for u in units:
-        if u["kind"] != "module":
+        if u["kind"] not in ("module", "lambda"):
             u["body"].append({"t": "ret1"})
     return units
 
@@ -375,6 +434,9 @@ def render(case):
         w = wr(u["file"])
         k = u["kind"]
         if k in ("module", "wrapper"):
+            continue
+        if k in NATIVE_KINDS:
+            render_native(w, u, cx)
             continue
         if i > 0 and units[i - 1]["kind"] == "wrapper":
             wu = units[i - 1]
@@ -456,7 +518,14 @@ def q_expr(e, env):
         return f"(EOp {q_node(e['ln'])} {q_list(q_expr(s, env) for s in e['subs'])} false)"
     if t == "next":
         node = q_node(e["ln"], "NkAttr", e["alt"]) if e.get("style_eff") == "attrml" else q_node(e["ln"])
-        return f"(ECall {node} {q_list(q_expr(a, env) for a in e.get('args', []))} {env['callee']})"
+        args = q_list(q_expr(a, env) for a in e.get('args', []))
+        nat = env.get("native")
+        if nat == "returns":
+            return f"(EOp {node} {args} false)"
+        if nat is not None:
+            # arguments first (they cannot fault here), then the native function raises with its own frame
+            return f"(EOp {node} [EOp {node} {args} false; ENative {node} [{nat}]] false)"
+        return f"(ECall {node} {args} {env['callee']})"
     raise ValueError(t)
 
 
@@ -501,7 +570,17 @@ def to_gallina(case, units, names):
     nf = 0
     mods = []
     midx = {}
+    native = None  # Gallina nentry of the native leaf unit if the fault is inside it, "returns" otherwise
     for i, u in enumerate(units):
+        if u["kind"] in NATIVE_KINDS:
+            native = "returns"
+            flt = [b for b in u["body"] if b.get("is_fault")]
+            if flt:
+                ln = fault_line(flt[0])
+                pyname = "<lambda>" if u["kind"] == "lambda" else u["name"]
+                psname = LAMBDA_PS_NAME if u["kind"] == "lambda" else u["name"]
+                native = f"({FILES[u['file']]['id']}%N, {names.id(pyname)}%N, {names.id(psname)}%N, {ln}%N)"
+            continue
         if u["kind"] == "module":
             midx[i] = len(mods)
             mods.append(i)
@@ -513,13 +592,15 @@ def to_gallina(case, units, names):
         if i + 1 >= len(units):
             return "(CFunc 9999)"
         n = units[i + 1]
+        if n["kind"] in NATIVE_KINDS:
+            return "(CFunc 9999)"
         if n["kind"] == "module":
             return f"(CMod {midx[i + 1]})"
         return f"(CFunc {fidx[i + 1]})"
 
     funcs = []
     for i, u in enumerate(units):
-        if u["kind"] == "module":
+        if u["kind"] == "module" or u["kind"] in NATIVE_KINDS:
             continue
         fid = FILES[u["file"]]["id"]
         nm = names.id(u["name"])
@@ -528,13 +609,14 @@ def to_gallina(case, units, names):
             ren = f"(Some {names.id(units[i + 1]['name'])}%N)"
         reps = (u["rec"] + 1) if u["kind"] == "rec" else 1
         for t in range(reps):
-            env = {"callee": callee_of(i), "rec_enter": t < reps - 1, "rec_next": fidx[i] + t + 1}
+            env = {"callee": callee_of(i), "rec_enter": t < reps - 1, "rec_next": fidx[i] + t + 1,
+                   "native": native if (i + 1 < len(units) and units[i + 1]["kind"] in NATIVE_KINDS) else None}
             body = q_list(q_stmt(s, env) for s in u["body"])
             funcs.append(f"(mkFunc {fid}%N {nm}%N {ren} {body})")
     modterms = []
     for i in mods:
         u = units[i]
-        env = {"callee": callee_of(i)}
+        env = {"callee": callee_of(i), "native": native if (i + 1 < len(units) and units[i + 1]["kind"] in NATIVE_KINDS) else None}
         modterms.append(f"(mkMod {FILES[u['file']]['id']}%N {q_list(q_stmt(s, env) for s in u['body'])})")
     prog = f"(mkProg {q_list(funcs)} {q_list(modterms)})"
     if case["entry"] == "load":
